@@ -17,7 +17,7 @@ PROP = {
         "one_sync", "sync_position_updates_only", "sync_position", "sync_position_delete_clause_fails", "swap_breaks", "unserialised_breaks"]],
     "pre": [facts.make_step(["subscribe.stream.order", "cache.update.writeThenNotify", "subscribe.feed.calls", "subscribe.walk.order",
                              "subscribe.updateNotification.set"])],
-    "components": [su_component("")],
+    "components": [su_component(""), su_component("c08", 150, 1500)],
     "monitor": "spec", "level": "proof",
     "trusted_base": SUB_TB + LTS_TB, "assumptions": SUB_ASSUMPTIONS,
     "manifest": {
